@@ -80,8 +80,9 @@ class World:
 
     def bid_of_final(self, path):
         """store/aa/bb/rest-3[/workspace] -> bid number or None"""
+        from bob.share import SHARED_GENERATION
         rel = os.path.relpath(path, self.store)
-        m = re.match(r"^([0-9a-f]{2})/([0-9a-f]{2})/([0-9a-f]{36})-3(/workspace)?$", rel)
+        m = re.match(r"^([0-9a-f]{2})/([0-9a-f]{2})/([0-9a-f]{36})" + re.escape(SHARED_GENERATION) + r"(/workspace)?$", rel)
         return bid_of_hex(m.group(1) + m.group(2)) if m else None
 
     # ---------------------------------------------------------------- materialise inputs
